@@ -278,10 +278,33 @@ func c12Perm(r []cid.Cid, k int) []cid.Cid {
 	return out
 }
 
+// c12SameOrder tells whether two root lists hold the same CIDs in the same order (nil and empty are the same list).
+func c12SameOrder(a, b []cid.Cid) bool {
+	if len(a) != len(b) {
+		return false
+	}
+	for i := range a {
+		if !a[i].Equals(b[i]) {
+			return false
+		}
+	}
+	return true
+}
+
+// c12OrderKey names an order of the roots in the memo of uninterrupted sessions.
+func c12OrderKey(r []cid.Cid) string {
+	var sb strings.Builder
+	for _, c := range r {
+		sb.WriteString(c.KeyString())
+		sb.WriteByte('|')
+	}
+	return sb.String()
+}
+
 // c12Memo is shared by all sequences of one case (same front end, options and roots).
 type c12Memo struct {
 	probeSeen map[string]bool
-	want      map[string][]byte // puts so far -> bytes of the uninterrupted session
+	want      map[string][]byte // puts so far + order of the roots -> bytes of the uninterrupted session
 }
 
 // c12Run executes ops (+ final Finalize) with interruptions and compares with uninterrupted sessions.
@@ -316,9 +339,10 @@ func c12Run(x *kit.Ctx, cs C12Case, ops []string, memo *c12Memo, onlyProbe strin
 		return
 	}
 	var puts []string
-	// uninterrupted(puts): the bytes a session that is never interrupted writes for the same puts
-	uninterrupted := func(puts []string) []byte {
-		k := strings.Join(puts, ",")
+	// uninterrupted(puts, order): the bytes a session that is never interrupted writes for the same puts, created with
+	// the roots in the given order
+	uninterrupted := func(puts []string, order []cid.Cid) []byte {
+		k := strings.Join(puts, ",") + "#" + c12OrderKey(order)
 		if w, ok := memo.want[k]; ok {
 			return w
 		}
@@ -326,7 +350,7 @@ func c12Run(x *kit.Ctx, cs C12Case, ops []string, memo *c12Memo, onlyProbe strin
 		os.Remove(upath)
 		defer os.Remove(upath)
 		ufront := cs.Front
-		u, err := c12Open(ufront, upath, roots, cs.Opts, false, nil)
+		u, err := c12Open(ufront, upath, order, cs.Opts, false, nil)
 		if err != nil {
 			panic(err)
 		}
@@ -343,6 +367,21 @@ func c12Run(x *kit.Ctx, cs C12Case, ops []string, memo *c12Memo, onlyProbe strin
 		return w
 	}
 	reopenCount := 0
+	// accepted: the rearrangements of the roots that a reopen of this history accepted. The statement fixes the file
+	// of "the same roots"; where an implementation takes a rearranged list for the same roots, the uninterrupted
+	// session created with that list is as legal a reference as the one created with the original order.
+	var accepted [][]cid.Cid
+	matchesUninterrupted := func(got []byte, puts []string) bool {
+		if bytes.Equal(got, uninterrupted(puts, roots)) {
+			return true
+		}
+		for _, o := range accepted {
+			if bytes.Equal(got, uninterrupted(puts, o)) {
+				return true
+			}
+		}
+		return false
+	}
 	probe := func(step int) {
 		img, _ := os.ReadFile(path)
 		k := string(img)
@@ -404,16 +443,42 @@ func c12Run(x *kit.Ctx, cs C12Case, ops []string, memo *c12Memo, onlyProbe strin
 				}
 				// every finalized intermediate image is already the uninterrupted session's file for the puts so far
 				img, _ := os.ReadFile(path)
-				if want := uninterrupted(puts); !bytes.Equal(img, want) {
+				if !matchesUninterrupted(img, puts) {
+					want := uninterrupted(puts, roots)
 					x.FailCase(rc, "c12:intermediate-bytes-differ:"+cs.Front, "after %v the finalized file (%d bytes) differs from the uninterrupted session's (%d bytes): %x vs %x", ops[:i+1], len(img), len(want), clip(img), clip(want))
 					return
 				}
 			}
 			probe(i + 1)
-			// reopen with the same roots, rearranged (a permutation is not a mismatch)
+			// reopen with the same roots, rearranged. The statement promises the reopen for "the same roots"; that a
+			// rearranged list is the same roots is CarHeader.Matches' documentation, not the statement. A refusal of a
+			// genuinely rearranged list is therefore recorded, not reported, and the history goes on in the original
+			// order (whose refusal is a violation). Refused, the rearranged list was a mismatch for the implementation,
+			// and a refused mismatch leaves the file as it was: that half of the statement holds either way.
 			r := c12Perm(roots, reopenCount)
 			reopenCount++
+			permuted := !c12SameOrder(r, roots)
+			var before []byte
+			if permuted {
+				before, _ = os.ReadFile(path)
+			}
 			s, err = c12Open(cs.Front, path, r, cs.Opts, true, h)
+			if permuted && err != nil {
+				x.Outcome("beyond-statement:permuted-roots-refused")
+				if after, _ := os.ReadFile(path); !bytes.Equal(after, before) {
+					x.FailCase(rc, "c12:mismatch-touched:permuted-roots:"+cs.Front, "refused reopen with the roots rearranged after %v (err %v) changed the file: %d -> %d bytes", ops[:i+1], err, len(before), len(after))
+					return
+				}
+				s, err = c12Open(cs.Front, path, roots, cs.Opts, true, h)
+			} else if permuted {
+				known := false
+				for _, o := range accepted {
+					known = known || c12SameOrder(o, r)
+				}
+				if !known {
+					accepted = append(accepted, r)
+				}
+			}
 			if err != nil {
 				x.FailCase(rc, "c12:reopen-refused:"+op+":"+cs.Front, "reopening with the same roots and options after %v failed: %v", ops[:i+1], err)
 				return
@@ -437,8 +502,8 @@ func c12Run(x *kit.Ctx, cs C12Case, ops []string, memo *c12Memo, onlyProbe strin
 		return
 	}
 	got, _ := os.ReadFile(path)
-	want := uninterrupted(puts)
-	if !bytes.Equal(got, want) {
+	if !matchesUninterrupted(got, puts) {
+		want := uninterrupted(puts, roots)
 		x.FailCase(rc, "c12:bytes-differ:"+cs.Front, "after %v + Finalize the file (%d bytes) differs from the uninterrupted session's (%d bytes): %x vs %x", ops, len(got), len(want), clip(got), clip(want))
 	}
 	x.State(fmt.Sprintf("%s|%+v|%s|%x", cs.Front, cs.Opts, cs.Base, got))
@@ -547,7 +612,7 @@ func init() {
 		Decode: kit.DecodeAs[C12Case],
 		Rule: "every sequence of the depth bound over {Put a, Put b, Put a', Put identity, Discard+reopen, Finalize+reopen} followed by Finalize, x 7 option configurations (7 more one level less deep) x {blockstore.OpenReadWrite, storage.OpenReadableWritable, blockstore.OpenReadWriteFile over ONE caller-owned handle kept across all sessions}; " +
 			"the same over section shapes {128-byte and 16 KiB sections, empty data, CIDv0, PutMany batch} and over files created with root sets {a,a}, {a}, {}, {a,b,c,s}, {a,a,b}; differential oracle: bytes of the uninterrupted session with the same puts, after the final Finalize AND after every intermediate Finalize; every block put is read back from the resumed session; " +
-			"on every distinct intermediate file image every single-field mismatch (other/extra/fewer/no roots, a repeated root for a distinct one and vice versa, the same members in other multiplicities, same digest under another codec / as CIDv0, wrong version, data padding +1/+8/+64/-1/to 0) is tried on a copy and must be refused leaving the bytes unchanged; reopen roots cycle through original order, reversed, rotated (nil for no roots); non-trivial = sequence with >=1 reopen and >=1 put, or a mismatch probe on a distinct image",
+			"on every distinct intermediate file image every single-field mismatch (other/extra/fewer/no roots, a repeated root for a distinct one and vice versa, the same members in other multiplicities, same digest under another codec / as CIDv0, wrong version, data padding +1/+8/+64/-1/to 0) is tried on a copy and must be refused leaving the bytes unchanged; reopen roots cycle through original order, reversed, rotated (nil for no roots); a refusal of a genuinely rearranged list is beyond the statement (outcome beyond-statement:permuted-roots-refused; it must leave the bytes unchanged, and the history continues with the original order, whose refusal is a violation); where a rearranged list was accepted, the uninterrupted session created with that order is a reference too; non-trivial = sequence with >=1 reopen and >=1 put, or a mismatch probe on a distinct image",
 		Bound: func(tier string) map[string]any {
 			d := 6
 			if tier == "thorough" {
@@ -555,6 +620,6 @@ func init() {
 			}
 			return map[string]any{"depth": d, "depth_more_cfgs_and_shapes": d - 1, "depth_other_root_sets": d - 2, "ops": 6, "shape_ops": len(c12ShapeOps), "configurations": len(c12Cfgs) + len(c12MoreCfgs), "front_ends": len(c12Fronts), "root_sets": 1 + len(c12Bases)}
 		},
-		Assumptions: []string{"the uninterrupted session is the reference (its well-formedness is C05)", "read limits below the session's own header/section sizes are not configured"},
+		Assumptions: []string{"the uninterrupted session is the reference (its well-formedness is C05)", "read limits below the session's own header/section sizes are not configured", "the statement's 'same roots' is the same list; that a rearranged list is accepted as the same roots is documented by CarHeader.Matches only and is observed, not required"},
 	})
 }
